@@ -182,7 +182,8 @@ for _k, _p in PROPERTIES.items():
 for _k, _p in PROPERTIES.items():
     _p.setdefault("dft_conformance", _k in ("C01", "C02", "C03", "C04", "C05", "C06", "C07", "C10", "C11", "C12"))
 for _p in PROPERTIES.values():
-    _p.setdefault("technique", TECH)
+    _p.setdefault("technique", TECH + ("; lemmas over the contracts checked by Lean 4 + Mathlib in the thorough tier (%s)" % _p["lean"] if _p.get("lean") else "")
+                  + ("; order clauses over exp/log by z3 with ground axiom instances" if _k == "C09" else ""))
     _p.setdefault("bounded", True)
 
 NOT_APPLICABLE = {}
